@@ -141,7 +141,7 @@ func runReader() {
 			}
 			nmain++
 			switch {
-			case !chk.Quick() || d.Name == "tiny/A":
+			case !chk.Quick() || d.Name == "tiny/A" || s.sh.totalWords() <= 100:
 				ts = append(ts, d)
 			case nmain%12 == s.sh.Layers%12:
 				extra = append(extra, d)
@@ -161,7 +161,7 @@ func runReader() {
 			jobs = append(jobs, job{si, tx, 3, []int{2, 0}})
 		}
 	}
-	name := "(a) AztecReader.Decode: 36 shapes x {tiny, fill half, fill full} x rotation {0,90,180,270} x scale {2,3,4,5} x quiet zone {2 (positive obligation), 0 (wrong text only)}; plus every 12th main-class driver text (offset by layer count) at scale 3"
+	name := "(a) AztecReader.Decode: 36 shapes x {tiny, fill half, fill full} x rotation {0,90,180,270} x scale {2,3,4,5} x quiet zone {2 (positive obligation), 0 (wrong text only)}; on the 8 shapes of <= 100 codewords (compact 1-4, full 1-4) every fitting main-class text (without latch histories) in the same product; on the others every 12th such text (offset by layer count) at scale 3"
 	if !chk.Quick() {
 		name = "(a) AztecReader.Decode: 36 shapes x every fitting main-class text of the family (without the 125 latch histories) + fills half/full in 4 variants x rotation {0,90,180,270} x scale {2,3,4,5} x quiet zone {2 (positive obligation), 0 (wrong text only)}"
 	}
@@ -268,7 +268,7 @@ func checkDamaged(l *mc.Local, sh shape, sym *az.Symbol, mods [][][2]int, tx tex
 	l.Distinct("outcomes", c.Sub+"/"+via+cls)
 	l.Count(c.Sub+"/"+via+cls, 1)
 	if cls == "ok" {
-		l.Distinct("nontrivial", fmt.Sprint(c.Sub, sh, tx.Name, c.Via, c.Rot, c.Pos[0], len(c.Pos), c.Val[0], c.Family))
+		l.Distinct("nontrivial", fmt.Sprint(c.Sub, sh, tx.Name, c.Via, c.Rot, hashStr(fmt.Sprint(c.Pos, c.Val))))
 		return
 	}
 	chk.Violation(keyBase+"/"+via+cls, fmt.Sprintf("%v (%d data + %d check words of %d bits, capacity %d) script %s, %s: %s, expected %q", sh, sym.DataWords, sym.CheckWords, sym.WordSize, sym.CheckWords/2, tx.Name, what, o.describe(), clip(tx.Want, 60)), c)
